@@ -68,7 +68,14 @@ pub fn emit_cmp(out: &mut impl Write, vi: usize, a: &[u8], b: &[u8]) {
             let d0 = ha.compare_with_config(&hb, mode_of(0));
             let d1 = ha.compare_with_config(&hb, mode_of(1));
             let mut laws: Vec<&str> = Vec::new();
-            if ha.compare(&hb) != d0 { laws.push("compare-is-not-default-mode"); }
+            // `compare()` is an entry point of its own (it may be overridden separately from `compare_with_config`):
+            // its value is C02's business, the laws on it are C08's
+            let dc = ha.compare(&hb);
+            if dc != d0 { laws.push("C02 compare-is-not-compare_with_config-in-default-mode"); }
+            if ha.compare(&ha) != 0 || hb.compare(&hb) != 0 { laws.push("self-distance-nonzero(compare)"); }
+            if hb.compare(&ha) != dc { laws.push("asymmetric(compare)"); }
+            if dc > T::max_distance(mode_of(0)) { laws.push("exceeds-max-distance(compare)"); }
+            if dc == 0 && a != b { laws.push("zero-distance-between-different-hashes(compare)"); }
             if ha.compare_with_config(&ha, mode_of(0)) != 0 || hb.compare_with_config(&hb, mode_of(1)) != 0 { laws.push("self-distance-nonzero"); }
             if hb.compare_with_config(&ha, mode_of(0)) != d0 || hb.compare_with_config(&ha, mode_of(1)) != d1 { laws.push("asymmetric"); }
             if d0 > T::max_distance(mode_of(0)) || d1 > T::max_distance(mode_of(1)) { laws.push("exceeds-max-distance"); }
@@ -86,7 +93,10 @@ pub fn emit_cmp(out: &mut impl Write, vi: usize, a: &[u8], b: &[u8]) {
         match r {
             Ok(Some((d0, d1, laws))) => {
                 writeln!(out, "{} => {} {}", head, d0, d1).unwrap();
-                for l in laws { writeln!(out, "ORACLE C08 {} {}", l, head).unwrap(); }
+                for l in laws {
+                    if let Some(rest) = l.strip_prefix("C02 ") { writeln!(out, "ORACLE C02 {} {}", rest, head).unwrap(); }
+                    else { writeln!(out, "ORACLE C08 {} {}", l, head).unwrap(); }
+                }
             }
             Ok(None) => {}
             Err(()) => { writeln!(out, "{} => panic", head).unwrap(); writeln!(out, "ORACLE C08 compare-panicked {}", head).unwrap(); }
